@@ -3,7 +3,7 @@
    All theorems quantify over every geometry, every number of threads, every program and
    EVERY schedule (list of Run tid | Tick dt) of the program-counter machine in
    Model/LeapArrayConc.v, whose steps are the atomic accesses of the Go code. *)
-From SG Require Import Base.Prelude Base.GoInt Model.LeapArrayConc Proofs.LeapArrayConcProofs.
+From SG Require Import Base.Prelude Base.GoInt Model.LeapArrayConc Proofs.LeapArrayConcProofs Proofs.LeapArrayConcSafetyProofs.
 
 (* Every total returned by CountWithTime is at most the sum of the amounts (of that event)
    whose atomic add has executed. Since the statement holds for every schedule it holds in
@@ -33,4 +33,83 @@ Proof.
   - vm_compute. reflexivity.
 Qed.
 
+
+(* ------------------------------------------------------------------------------------------
+   The stall hypothesis.  no_stall g sched c0  (Model/LeapArrayConc.v) says: in every
+   configuration the schedule passes through, every operation in progress (recorder or reader:
+   it has read its timestamp and has not finished) read its timestamp at most one bucket length
+   of clock ago.  g_zero_first g = true selects the order of ResetBucketTo in /repo after fix
+   43206f8 (reset() first, BucketStart published last); Corr/Run_C09.v runs the correspondence,
+   including the order of the yield labels, with that value. *)
+
+(* With more than one bucket an amount is only ever added to a slot whose BucketStart, at the
+   moment of the atomic add, is the bucket start selected by the recorder's own timestamp. *)
+Theorem C09_right_bucket : forall g t0 progs sched,
+  0 < g_bl g -> (2 <= g_n g)%nat -> g_zero_first g = true ->
+  no_stall g sched (init g t0 progs) ->
+  let c := exec g sched (init g t0 progs) in
+  Forall (fun r => a_start r = a_own r) (adds (sh c)).
+Proof. exact right_bucket. Qed.
+
+(* ... and never surfaces in a later window: whatever a counter holds (the ghost list of the adds
+   since the counter was last zeroed) was added under the slot's current BucketStart. *)
+Theorem C09_right_bucket_window : forall g t0 progs sched,
+  0 < g_bl g -> (2 <= g_n g)%nat -> g_zero_first g = true ->
+  no_stall g sched (init g t0 progs) ->
+  let c := exec g sched (init g t0 progs) in
+  forall i k p, In p (contribv (nth i (slots (sh c)) dslot) k) -> snd p = s_start (nth i (slots (sh c)) dslot).
+Proof. exact contrib_current. Qed.
+
+(* A reader never sums an amount that was added under an earlier start of the slot than the start
+   the reader saw when it selected the slot (the ghost log `stale` records every such amount). *)
+Theorem C09_expired_invisible : forall g t0 progs sched,
+  0 < g_bl g -> (2 <= g_n g)%nat -> g_zero_first g = true ->
+  no_stall g sched (init g t0 progs) ->
+  stale (sh (exec g sched (init g t0 progs))) = [].
+Proof. exact expired_invisible. Qed.
+
+Definition rep (n : nat) (e : ev) : schedule := repeat e n.
+Definition progs3 : list (list op) := [[ORecord 0 5]; [ORecord 0 1]; [ORead 0]].
+
+(* non-vacuity: thread 0 fills slot 0 with 5; the clock advances by one interval; thread 1 starts the
+   rollover and parks inside the reset; the reader spins on the try-lock; thread 1 finishes (adds 1);
+   the reader then selects both slots and returns 1. No operation is stalled, a bucket was rolled over,
+   a reader summed the rolled-over slot, and both adds went to their own bucket. *)
+Definition sched_roll : schedule :=
+  rep 4 (Run 0%nat) ++ [Tick 2000] ++ rep 6 (Run 1%nat) ++ rep 5 (Run 2%nat) ++ rep 9 (Run 1%nat) ++ rep 12 (Run 2%nat).
+
+Example C09_right_bucket_nonvacuous :
+  let g := g2 true in
+  let c := exec g sched_roll (init g T0 progs3) in
+  no_stall g sched_roll (init g T0 progs3) /\
+  map (fun r => (a_amt r, a_start r, a_own r)) (adds (sh c)) = [(5, T0, T0); (1, T0 + 2000, T0 + 2000)] /\
+  map r_total (reads (sh c)) = [1] /\ all_done c = true.
+Proof. cbv zeta. repeat split; vm_compute; reflexivity. Qed.
+
+Example C09_expired_invisible_nonvacuous :
+  let g := g2 true in
+  let c := exec g sched_roll (init g T0 progs3) in
+  no_stall g sched_roll (init g T0 progs3) /\ (2 <= g_n g)%nat /\
+  map s_start (slots (sh c)) = [T0 + 2000; T0 + 1000] /\ map r_total (reads (sh c)) = [1] /\ stale (sh c) = [].
+Proof. cbv zeta. repeat split; try (vm_compute; reflexivity). Qed.
+
+(* The order before fix 43206f8 (BucketStart stored first, reset() afterwards) violates the statement:
+   defect D7. Same programs; the reader runs while thread 1 is parked between the store and the first
+   zeroing and returns the 5 recorded one interval earlier. The schedule stalls nobody. *)
+Definition sched_d7 : schedule := rep 4 (Run 0%nat) ++ [Tick 2000] ++ rep 6 (Run 1%nat) ++ rep 10 (Run 2%nat).
+
+Theorem C09_expired_invisible_refuted_old_order :
+  exists g t0 progs sched,
+    0 < g_bl g /\ (2 <= g_n g)%nat /\ g_zero_first g = false /\ no_stall g sched (init g t0 progs) /\
+    let c := exec g sched (init g t0 progs) in
+    stale (sh c) <> [] /\ map r_total (reads (sh c)) = [5] /\ Esum (on_kind 0) (filter (fun r => T0 + 1000 <=? a_own r) (adds (sh c))) = 0.
+Proof.
+  exists (g2 false), T0, progs3, sched_d7. cbv zeta. repeat split; try (vm_compute; reflexivity); try (cbn; lia).
+  vm_compute. discriminate.
+Qed.
+
 Print Assumptions C09_no_invention.
+Print Assumptions C09_right_bucket.
+Print Assumptions C09_right_bucket_window.
+Print Assumptions C09_expired_invisible.
+Print Assumptions C09_expired_invisible_refuted_old_order.
